@@ -130,7 +130,20 @@ func c14Gen(c *Ctx) *c14Scenario {
 			sc.Ops = append(sc.Ops, c14Op{Kind: "patchTask", ID: id, Vars: "int", DBRP: "db2"})
 		}
 		if sc.Ops[0].Script == 6 && g.Bool() {
-			sc.Ops = append(sc.Ops, c14Op{Kind: "boom"}) // the pipeline started first fails at run time, after its definition was updated
+			// the pipeline started first fails at run time, after its definition was updated
+			if g.Bool() {
+				sc.Ops = append(sc.Ops, c14Op{Kind: "boom"})
+			} else {
+				// ... and while its failure is being recorded the task is given another script and restarted
+				last := sc.Ops[len(sc.Ops)-1]
+				cur := id
+				if last.Kind == "patchTask" && last.NewID != "" {
+					cur = last.NewID
+				}
+				sc.Ops = append(sc.Ops, c14Op{Kind: "boom", NoWait: true},
+					c14Op{Kind: "patchTask", ID: cur, Script: 1 + g.Intn(2), Status: "disabled", NoWait: true},
+					c14Op{Kind: "patchTask", ID: cur, Status: "enabled"})
+			}
 		}
 	}
 	for i := 0; i < n; i++ {
@@ -221,8 +234,11 @@ type c14MTask struct {
 
 // start models one start attempt: a definition that names an InfluxDB cluster that does not exist is accepted
 // (the pipeline is valid) but cannot be started.
-func (t *c14MTask) start() bool {
+func (t *c14MTask) start(poison bool) bool {
 	t.Running, t.Started, t.StartedDB = "ok", t.Script, t.DBRP
+	if poison && c14ByText[t.Script].Dies {
+		t.Running = "?" // data on which this pipeline fails may still be on its way to it
+	}
 	if c14ByText[t.Script].Fails || t.DBRP == "" {
 		t.Running = ""
 		if simrt.Active() {
@@ -239,6 +255,8 @@ type c14Model struct {
 	// template id -> alternative script: after a template update that failed on one of its tasks the property
 	// says nothing about the template's own definition; the first observation settles it
 	TmplAlt map[string]string
+	// Poison: data on which pipelines of the sixth script fail has been written and the daemon has not settled since
+	Poison bool
 }
 
 func newC14Model() *c14Model {
@@ -246,7 +264,7 @@ func newC14Model() *c14Model {
 }
 
 func (m *c14Model) clone() *c14Model {
-	return &c14Model{Tasks: simrt.CloneMap(m.Tasks), Templates: simrt.CloneMap(m.Templates), TmplAlt: simrt.CloneMap(m.TmplAlt)}
+	return &c14Model{Tasks: simrt.CloneMap(m.Tasks), Templates: simrt.CloneMap(m.Templates), TmplAlt: simrt.CloneMap(m.TmplAlt), Poison: m.Poison}
 }
 
 // c14Valid: does script s build with the task vars v?
@@ -297,7 +315,7 @@ func (m *c14Model) apply(op c14Op) bool {
 		started := true
 		if t.Enabled {
 			// the definition is saved before the start is attempted: a failed start answers with an error but the task exists
-			started = t.start()
+			started = t.start(m.Poison)
 		}
 		m.Tasks[op.ID] = t
 		return started
@@ -359,12 +377,12 @@ func (m *c14Model) apply(op c14Op) bool {
 			delete(m.Tasks, op.ID)
 			newID = op.NewID
 			if old.Enabled && t.Enabled {
-				started = t.start() // restarted under the new id
+				started = t.start(m.Poison) // restarted under the new id
 			}
 		}
 		if started && old.Enabled != t.Enabled {
 			if t.Enabled {
-				started = t.start()
+				started = t.start(m.Poison)
 			} else {
 				t.Running = ""
 			}
@@ -445,7 +463,7 @@ func (m *c14Model) apply(op c14Op) bool {
 					t.DBRP = "" // the only dbrp the task had was the old template's: it has none now
 				}
 				if t.Enabled {
-					t.start() // an enabled task is reloaded with the new script
+					t.start(m.Poison) // an enabled task is reloaded with the new script
 				}
 				m.Tasks[id] = t
 			}
@@ -457,11 +475,12 @@ func (m *c14Model) apply(op c14Op) bool {
 
 // restarted: after a restart every enabled task is started again.
 func (m *c14Model) restarted() {
+	m.Poison = false // whatever was on its way is gone with the process
 	for _, id := range simrt.Keys(m.Tasks) {
 		t := m.Tasks[id]
 		t.Running = ""
 		if t.Enabled {
-			t.start()
+			t.start(m.Poison)
 		}
 		m.Tasks[id] = t
 	}
@@ -739,6 +758,7 @@ func c14Run(c *Ctx, sc *c14Scenario, cfg simrt.Config, path string, from int, mo
 				}
 			}
 			alt = nil
+			life.model.Poison = false // verify() starts with WaitIdle: everything written has been processed
 			for _, id := range c14TaskIDs {
 				if _, ok := life.model.Tasks[id]; !ok && d.TM.IsExecuting(id) {
 					life.verdict = Fail("executing/ghost", "%s the API shows no task %s, yet the task master is still executing a task of that id", when, id)
@@ -796,6 +816,12 @@ func c14Run(c *Ctx, sc *c14Scenario, cfg simrt.Config, path string, from int, mo
 				life.model.apply(op)
 				life.done = i + 1
 				simrt.Count("probe.poison_written")
+				if op.NoWait && i+1 < len(sc.Ops) {
+					// the next requests meet the start-failure bookkeeping of the dying pipelines in flight
+					life.model.Poison = true
+					simrt.Count("probe.request_while_pipeline_dies")
+					continue
+				}
 				if !verify(d, fmt.Sprintf("after op #%d (data on which pipelines of the sixth script fail)", i)) {
 					return
 				}
@@ -858,7 +884,11 @@ func runC14(c *Ctx) Verdict {
 	c.Scenario = sc
 	cfg := c.WorldConfig()
 	cfg.MaxSteps = 4_000_000
-	sc.Config = fmt.Sprintf("%v p=%.2f", cfg.Strategy, cfg.SwitchProb)
+	if cfg.Strategy == simrt.StratStarve {
+		// hold back the goroutines that watch a started task for its failure, or the API client itself
+		cfg.StarveRole = []string{"services/task_store/service.go", "c14.go", "node.go"}[c.G.Intn(3)]
+	}
+	sc.Config = fmt.Sprintf("%v p=%.2f starve=%s", cfg.Strategy, cfg.SwitchProb, cfg.StarveRole)
 	base := c14Run(c, sc, cfg, "", 0, newC14Model(), nil, 0, -1, 0)
 	if v, bad := WorldVerdict(base.res, false); bad {
 		return v
